@@ -228,20 +228,40 @@ def accepted_pairs(ctx, keys=KEYS6):
     import lena.flow as lf
     import lena.core as lc
     out, rejected = [], 0
+    order_dependent = None
     for mask in itertools.product((0, 1, 2), repeat=len(keys)):
         G = [k for k, m in zip(keys, mask) if m == 1]
         M = [k for k, m in zip(keys, mask) if m == 2]
         if ("" in G) + ("" in M) != 1:
             continue
-        try:
-            lf.GroupBy(tuple(G), tuple(M))
-        except lc.LenaValueError:
-            rejected += 1
-            continue
-        except Exception as exc:   # noqa
-            ctx.violation("GroupBy.__init__:raised %s" % type(exc).__name__, {"group_by": G, "merge": M})
+        # a key set is accepted or not - in whatever order it is written
+        verdicts = {}
+        for g in itertools.permutations(G):
+            for m in itertools.permutations(M):
+                try:
+                    lf.GroupBy(g, m)
+                    v = "accepted"
+                except lc.LenaValueError:
+                    v = "rejected"
+                except Exception as exc:   # noqa
+                    v = "raised %s" % type(exc).__name__
+                verdicts.setdefault(v, (g, m))
+        if len(verdicts) > 1 and "accepted" in verdicts:
+            w = {v: {"group_by": list(gm[0]), "merge": list(gm[1])} for v, gm in verdicts.items()}
+            if order_dependent is None or len(G) + len(M) < order_dependent[0]:
+                order_dependent = (len(G) + len(M), w)
+        if "accepted" not in verdicts:
+            if any(v.startswith("raised") for v in verdicts):
+                ctx.violation("GroupBy.__init__:%s" % sorted(verdicts)[0], {"group_by": G, "merge": M})
+            else:
+                rejected += 1
             continue
         out.append({"G": [k.split(".") if k else [] for k in G], "M": [k.split(".") if k else [] for k in M]})
+    if order_dependent is not None:
+        w = order_dependent[1]
+        ctx.violation("GroupBy.__init__:whether a key set is accepted depends on the order in which it is written:%s"
+                      % gm_text([k.split(".") if k else [] for k in w["accepted"]["group_by"]],
+                                [k.split(".") if k else [] for k in w["accepted"]["merge"]]), w)
     return out, rejected
 
 
@@ -320,7 +340,16 @@ def replay_classes(ctx, recs, rnd, worst):
         for pos, ci in enumerate(order):
             expected.setdefault(cls[ci], []).append(pos)
         exp = sorted(expected.values())
-        for style in ((0, 1, 2, 3) if rnum % 7 == 0 or (G == [] and M == [[]]) else (rnum % 4,)):
+        canon = (sorted(G), sorted(M))
+        if not rec["W"] or any((sorted(w["g"]), sorted(w["m"])) != canon for w in rec["W"]):
+            raise core.MachineryError("GroupBy export: the writings are not writings of the key sets")
+        # the key sets are constructed in every writing of the record (the first one in several argument styles)
+        todo = []
+        for wn, w in enumerate(rec["W"]):
+            styles = (((0, 1, 2, 3) if rnum % 7 == 0 or (G == [] and M == [[]]) else (rnum % 4,)) if wn == 0
+                      else ((0, 3)[(wn + rnum) % 2],))
+            todo += [(w["g"], w["m"], s) for s in styles]
+        for G, M, style in todo:
             try:
                 gb = make_groupby(G, M, style)
                 groups, computed = fill_all(gb, values)
@@ -350,13 +379,14 @@ def replay_classes(ctx, recs, rnd, worst):
                            lambda i, j: cls[present[i]] == cls[present[j]], "all contexts of the universe, one flow")
             if sorted([id(v) for v in g] for g in computed) != sorted([id(v) for v in g] for g in groups):
                 shape_problem(worst, "compute() differs from groups", G, M, {})
-        ctx.case(["groupby-classes", G, M], nontrivial=True)
+        ctx.case(["groupby-classes", rec["G"], rec["M"], len(rec["W"])], nontrivial=True)
 
 
 def replay_flows(ctx, recs, worst):
     """Behaviours of the GroupBy machine: fill / compute() / reset() in any order on one object."""
     for rnum, rec in enumerate(recs):
-        G, M = rec["G"], rec["M"]
+        w = rec["W"][rnum % len(rec["W"])]          # one of the writings of the key sets
+        G, M = w["g"], w["m"]
         items = rec["flow"]
         cs = {pos + 1: sl.dec_ctx(it["c"]) for pos, it in enumerate(items) if it["op"] == "fill"}
         snaps = []
@@ -391,7 +421,7 @@ def replay_flows(ctx, recs, worst):
         if snaps != [sorted(list(g) for g in sn) for sn in rec["snaps"]]:
             shape_problem(worst, "compute() does not yield the groups of the values filled so far", G, M,
                           {"operations": ops, "expected": rec["snaps"], "observed": snaps})
-        ctx.case(["groupby-flow", G, M, rec["flow"]], nontrivial=len(cs) > 1)
+        ctx.case(["groupby-flow", rec["G"], rec["M"], rec["flow"]], nontrivial=len(cs) > 1)
 
 
 def report_groupby(ctx, worst):
@@ -590,8 +620,10 @@ def run(ctx):
     return ctx.finish(
         rule="S2C: every specification of the exported universe (depth <= 2 quick / <= 3 thorough over strings, classes, "
              "total and raising callables, lists, tuples, Selector/Not/And/Or/SelectContext objects, both "
-             "raise_on_error settings) on eight values; every behaviour of the Filter machine; every key set accepted "
-             "by make_include_exclude_tree over {'', a, b, a.b, a.c, a.b.c} on one flow holding every context of the "
+             "raise_on_error settings) on 28 values (context leaves: numbers, strings, None, False, empty and non-empty "
+             "lists / tuples, strings containing the tested level); every behaviour of the Filter machine; every key set accepted "
+             "by make_include_exclude_tree over {'', a, b, a.b, a.c, a.b.c}, written shortest key first and deepest key first "
+             "(thorough: in every order), on one flow holding every context of the "
              "universe (partition compared with the SameGroup classes) and every behaviour of the fill machine; "
              "C2S: seeded random deeper specifications / key sets validated by Trace_Selectors / Trace_GroupBy",
         exhaustive=True)
